@@ -54,3 +54,119 @@ Lemma cross_flip (w a : R * R * R) s :
 Proof.
   destruct w as [[w0 w1] w2], a as [[a0 a1] a2]. unfold cross. numR. f_equal; [f_equal|]; ring.
 Qed.
+
+(* ---- completing the two-fold argument ---------------------------------------------------- *)
+Lemma pm1_sq t : pm1 t -> t * t = 1.
+Proof. intros [-> | ->]; ring. Qed.
+
+Lemma pm1_mul s t : pm1 s -> pm1 t -> pm1 (s * t).
+Proof. intros [-> | ->] [-> | ->]; unfold pm1; [left|right|right|left]; ring. Qed.
+
+Lemma over_tau_scale t x tau : @over_tau NumR (t * x) tau = t * @over_tau NumR x tau.
+Proof.
+  unfold over_tau. numR. destruct tau as [z|]; [|ring].
+  destruct z as [|[q|q|]|q]; unfold Rdiv; ring.
+Qed.
+
+Lemma Rabs_pm1 t x : pm1 t -> Rabs (t * x) = Rabs x.
+Proof.
+  intros [-> | ->]; [replace (1 * x) with x by ring; reflexivity|].
+  replace (-1 * x) with (- x) by ring. apply Rabs_Ropp.
+Qed.
+
+Lemma inv_pm1 t x : pm1 t -> x <> 0 -> / (t * x) = t * / x.
+Proof. intros [-> | ->] Hx; field; exact Hx. Qed.
+
+(* relative slip rates pick up t_s t_max *)
+Lemma beta_flip (t : nat -> R) tau (inv : arr R) P n s :
+  (forall k, pm1 (t k)) -> inv (pidx P 3) <> 0 ->
+  @spec_beta NumR tau (fun k => t k * inv k) P n s
+  = t s * t (pidx P 3) * @spec_beta NumR tau inv P n s.
+Proof.
+  intros Ht Hm. unfold spec_beta. cbv zeta beta.
+  destruct (Nat.eqb_spec s (pidx P 3)) as [->|Hne].
+  - numR. rewrite (pm1_sq _ (Ht (pidx P 3))). ring.
+  - destruct (Nat.eqb s (pidx P 0)); [numR; ring|].
+    rewrite over_tau_scale.
+    pose proof (Ht s) as Hs. pose proof (Ht (pidx P 3)) as Hp.
+    generalize dependent (@over_tau NumR (inv s) (tau_at tau s)).
+    generalize (@tau_val NumR (tau_at tau (pidx P 3))).
+    generalize dependent (inv (pidx P 3)). generalize dependent (t (pidx P 3)). generalize dependent (t s).
+    intros ts Hs tm Hp im Hm tv ot. numR. unfold Rdiv. rewrite (inv_pm1 tm im Hp Hm).
+    replace (ts * ot * (tv * (tm * / im))) with ((ts * tm) * (ot * (tv * / im))) by ring.
+    rewrite (Rabs_pm1 _ _ (pm1_mul _ _ Hs Hp)). ring.
+Qed.
+
+(* sign array of a row-sign triple: t_s = product of the two row signs of slip system s *)
+Definition tsgn (sa sb sc : R) (s : nat) : R :=
+  match s with 0%nat => sa * sb | 1%nat => sa * sc | 2%nat => sc * sb | _ => sc * sa end.
+
+Lemma tsgn_pm1 sa sb sc : pm1 sa -> pm1 sb -> pm1 sc -> forall s, pm1 (tsgn sa sb sc s).
+Proof. intros Ha Hb Hc s. destruct s as [|[|[|s]]]; cbn [tsgn]; apply pm1_mul; assumption. Qed.
+
+(* Schmid tensor: with beta'_s = t_s t_m beta_s the flipped tensor is t_m G *)
+Lemma schmid_flip sa sb sc (A b : arr R) tm k :
+  pm1 sa -> pm1 sb -> pm1 sc -> (k < 9)%nat ->
+  @spec_schmid NumR (flip sa sb sc A)
+     (mk_arr 0 [tsgn sa sb sc 0 * tm * b 0%nat; tsgn sa sb sc 1 * tm * b 1%nat;
+                tsgn sa sb sc 2 * tm * b 2%nat; tsgn sa sb sc 3 * tm * b 3%nat]) k
+  = tm * @spec_schmid NumR A b k.
+Proof.
+  intros [-> | ->] [-> | ->] [-> | ->] Hk;
+  do 9 (destruct k as [|k];
+        [cbv [spec_schmid flip tsgn row vnth sys_l sys_n mk_arr nth Nat.add Nat.mul]; numR; ring|]); lia.
+Qed.
+
+(* least-squares slip rate: gamma0 (t G) = t gamma0 G *)
+Lemma gamma0_scale t (G G' L : arr R) : pm1 t -> (forall k, (k < 9)%nat -> G' k = t * G k) ->
+  @spec_gamma0 NumR G' L = t * @spec_gamma0 NumR G L.
+Proof.
+  intros Ht HG. unfold spec_gamma0. cbv [frob sym2 e2 Nat.add Nat.mul].
+  rewrite !(HG 0%nat), !(HG 1%nat), !(HG 2%nat), !(HG 3%nat), !(HG 4%nat), !(HG 5%nat), !(HG 6%nat),
+          !(HG 7%nat), !(HG 8%nat) by lia.
+  numR.
+  match goal with |- (if andb (Rltb ?lo (2 * ?d1)) (Rltb (2 * ?d1) ?hi) then _ else ?n1 / ?d1)
+                     = t * (if andb (Rltb ?lo (2 * ?d2)) (Rltb (2 * ?d2) ?hi) then _ else ?n2 / ?d2) =>
+    assert (Hd : d1 = d2) by (destruct Ht as [-> | ->]; field);
+    assert (Hn : n1 = t * n2) by (destruct Ht as [-> | ->]; field);
+    rewrite Hd, Hn
+  end.
+  match goal with |- (if ?c then _ else _) = _ => destruct c end; [ring|].
+  unfold Rdiv. ring.
+Qed.
+
+(* spin unchanged: skw L - (t g)(t skw G) *)
+Lemma spin_scale t (G G' L : arr R) g : pm1 t -> (forall k, (k < 9)%nat -> G' k = t * G k) ->
+  @spec_spin NumR G' L (t * g) = @spec_spin NumR G L g.
+Proof.
+  intros Ht HG. cbv [spec_spin skw2 e2 Nat.add Nat.mul].
+  rewrite !(HG 1%nat), !(HG 2%nat), !(HG 3%nat), !(HG 5%nat), !(HG 6%nat), !(HG 7%nat) by lia.
+  numR. destruct Ht as [-> | ->]; (f_equal; [f_equal|]); field.
+Qed.
+
+(* rate rows flip with their row *)
+Lemma rate_flip sa sb sc (A G G' L : arr R) g g' k :
+  @spec_spin NumR G' L g' = @spec_spin NumR G L g -> (k < 9)%nat ->
+  @spec_rate NumR (flip sa sb sc A) G' L g' k = flip sa sb sc (@spec_rate NumR A G L g) k.
+Proof.
+  intros Hs Hk. unfold spec_rate. cbv zeta. rewrite Hs.
+  destruct (@spec_spin NumR G L g) as [[w0 w1] w2].
+  do 9 (destruct k as [|k];
+        [cbv [flip row cross vnth mk_arr nth Nat.add Nat.mul]; numR; ring|]). lia.
+Qed.
+
+(* strain energy: |beta'_s g'| = |beta_s g| *)
+Lemma energy_flip tau (t : nat -> R) (b b' : arr R) P g tm p n lam :
+  (forall k, pm1 (t k)) -> pm1 tm ->
+  (forall s, (s < 4)%nat -> b' s = t s * tm * b s) ->
+  @spec_energy NumR tau b' P (tm * g) p n lam = @spec_energy NumR tau b P g p n lam.
+Proof.
+  intros Ht Hm Hb. unfold spec_energy, spec_energy1, spec_rho.
+  assert (Hlt : forall i, (pidx P i < 4)%nat).
+  { intros i. destruct P; destruct i as [|[|[|[|[|i]]]]]; cbv [pidx perm4_list nth]; lia. }
+  assert (Habs : forall s, (s < 4)%nat -> Rabs (b' s * (tm * g)) = Rabs (b s * g)).
+  { intros s Hs. rewrite (Hb s Hs).
+    replace (t s * tm * b s * (tm * g)) with ((t s * (tm * tm)) * (b s * g)) by ring.
+    rewrite (pm1_sq tm Hm), Rmult_1_r. apply Rabs_pm1. apply Ht. }
+  numR. rewrite !Habs by apply Hlt. reflexivity.
+Qed.
